@@ -12,8 +12,10 @@ Driver of property C17 (schema path lookup).
          (dn = nodes created by this lookup, de = errors recorded by it)
   spec.paths <ignoreCircular> <ignoreNotSupported> <files in wire format>
       -> `ok wf=<0/1> <record>*`, one record per node of every tree except the roots:
-         `<tree>|<steps>|<absPath hex>|<wfKeys of the tree 0/1>` where absPath is the specification's
-         absolute prefixed schema path with the tree's own module prefix on every step
+         `<tree>|<steps>|<absPath hex>|<wfKeys of the tree 0/1>|<ctx>` where absPath is the specification's
+         absolute prefixed schema path with the tree's own module prefix on every step and ctx is the
+         (sub)module the model takes the node's prefix table from (`nodeMod` = Go's RootNode(e.Node);
+         for an implied case: that of the node it wraps)
 
   <tree>  = `m<hex full name>` (module) | `s<hex full name>` (submodule)
   <steps> = `-` (the root) | steps joined by `.`: `c<hex name>` | `i` | `o`
@@ -111,7 +113,8 @@ def handle : List String → String
         | none => []
         | some m =>
           ((nodes root).filter (fun px => !px.1.isEmpty)).map fun px =>
-            s!"{treeRef m}|{encSteps px.1}|{encStr (absPath m.getPrefix px.1)}|{b01 (wfKeys root)}"
+            let ctx := match o.reg.byId px.2.d.nodeMod with | some cm => treeRef cm | none => "?"
+            s!"{treeRef m}|{encSteps px.1}|{encStr (absPath m.getPrefix px.1)}|{b01 (wfKeys root)}|{ctx}"
       " ".intercalate (s!"ok wf={b01 (wfForest o.forest)}" :: recs)
   | _ => "bad-op"
 
